@@ -15,6 +15,21 @@ import (
 	"verif/harness/internal/tlc"
 )
 
+// runTLC: tlc.Run, retried when the copied specification does not parse --
+// spec/sem belongs to another engine and may be caught in the middle of an edit.
+func runTLC(o tlc.Opts) (*tlc.Result, error) {
+	var res *tlc.Result
+	var err error
+	for try := 0; try < 4; try++ {
+		res, err = tlc.Run(o)
+		if err == nil || !strings.Contains(err.Error(), "Parsing or semantic analysis failed") {
+			return res, err
+		}
+		time.Sleep(10 * time.Second)
+	}
+	return res, err
+}
+
 func listSpecDirs(c *core.Ctx) []string {
 	return []string{engs.SpecDir(c), filepath.Join(c.Verif, "spec", "list")}
 }
@@ -69,7 +84,7 @@ func lessList(a, b []int) bool {
 func runListMC(c *core.Ctx, bound, workers int) (*mcResult, error) {
 	out := filepath.Join(c.Work, "lists.ndjson")
 	os.Remove(out)
-	res, err := tlc.Run(tlc.Opts{SpecDirs: listSpecDirs(c), Module: "ListMC", Config: "ListMC.cfg", Workers: workers,
+	res, err := runTLC(tlc.Opts{SpecDirs: listSpecDirs(c), Module: "ListMC", Config: "ListMC.cfg", Workers: workers,
 		Timeout: 20 * time.Minute, HeapMB: 4000, Scratch: c.Work,
 		Env: map[string]string{"VERIF_OUT": out, "VERIF_MCB": fmt.Sprint(bound)}})
 	if err != nil {
